@@ -54,6 +54,24 @@ func genStopPoints(rng *rand.Rand, seed int64) *Scenario {
 	}
 	// the victim: stop it around one of its operations
 	v := 1 + rng.Intn(n)
+	if n >= 2 && rng.Intn(3) == 0 {
+		// a takeover-enabled, higher-priority victim next to an established lower-priority leader: its acquisition
+		// attempt is a Create, a Get and an Update, and the stop can fall between any two of them
+		sc.NoPreempt = false
+		for k := range sc.Insts {
+			if sc.Insts[k].ID == v {
+				sc.Insts[k].Takeover = true
+				sc.Insts[k].Prio = 2
+			} else {
+				sc.Insts[k].Prio = rng.Intn(2)
+			}
+		}
+		for k := range sc.Steps {
+			if sc.Steps[k].Inst == v {
+				sc.Steps[k].At += h/2 + h/4 // the others are up first
+			}
+		}
+	}
 	var startAt time.Duration
 	for _, st := range sc.Steps {
 		if st.Inst == v {
@@ -280,6 +298,13 @@ func genHealth(rng *rand.Rand, seed int64) *Scenario {
 		sc.Insts = append(sc.Insts, baseInst(2, h))
 		sc.Steps = append(sc.Steps, Step{At: 10 * ms, Kind: "start", Inst: 2})
 	}
+	if rng.Intn(3) == 0 {
+		// terms that end for another reason (the record is removed from outside) in the middle of a run of unhealthy results
+		for j := 0; j < 1+rng.Intn(2); j++ {
+			sc.Steps = append(sc.Steps, Step{At: 2*h + time.Duration(rng.Int63n(int64(time.Duration(ticks)*h)))/2*2 + 1, Kind: "extdelete", Key: "g"})
+		}
+		sc.NoOutside = false
+	}
 	sc.End = time.Duration(ticks+12) * h
 	return sc
 }
@@ -289,6 +314,10 @@ var tamperValues = []string{
 	`{"id":"i1","token":"forged"}`, `{"id":"i2","token":"forged","priority":9}`, `{"ID":"i1","TOKEN":"x"}`,
 	`{"id":"i1","token":"a","token":"b"}`, `{"id":"intruder","token":"zzz","priority":-1}`, `{"id":"","token":""}`,
 	`{"id":"i1","token":"forged","priority":"high"}`, `{"id":null,"token":null}`, "\xff\xfe", `{"id":"i1","token":"x","extra":{"a":[1,2,3]}}`,
+	// forged by somebody who has learnt instance 1's current token ($TOK1 is substituted when the step runs)
+	`{"token":"$TOK1"}`, `{"id":null,"token":"$TOK1"}`, `{"id":7,"token":"$TOK1"}`, `{"id":"","token":"$TOK1"}`, `{"id":{},"token":"$TOK1"}`,
+	`{"id":"i2","token":"$TOK1"}`, `{"id":"i1","token":"$TOK1","priority":"x"}`, `{"id":"i1","token":"$TOK1"}`, `{"ID":"i1","Token":"$TOK1"}`,
+	`{"id":"i1","token":["$TOK1"]}`,
 }
 
 // genTamper: an outside party rewrites or deletes the record at arbitrary moments with arbitrary
@@ -406,7 +435,13 @@ func genVacancy(rng *rand.Rand, seed int64) *Scenario {
 	}
 	if rng.Intn(3) == 0 {
 		// a candidate's Watch call fails once or twice around the event
-		sc.Steps = append(sc.Steps, Step{At: time.Duration(rng.Int63n(int64(at))), Kind: "watchfail", Inst: 2, N: 1 + rng.Intn(2)})
+		sc.Steps = append(sc.Steps, Step{At: time.Duration(rng.Int63n(int64(at))), Kind: "watchfail", Inst: 2, N: []int{1, 2, 5, 9}[rng.Intn(4)]})
+	}
+	if rng.Intn(4) == 0 {
+		// every candidate's Watch call keeps failing around the vacancy: the periodic check alone must fill it
+		for i := 2; i <= n; i++ {
+			sc.Steps = append(sc.Steps, Step{At: at - time.Duration(rng.Int63n(int64(2*h))), Kind: "watchfail", Inst: i, N: 6 + rng.Intn(6)})
+		}
 	}
 	sc.End = at + 14*h
 	return sc
@@ -628,5 +663,68 @@ func genLease(rng *rand.Rand, seed int64) *Scenario {
 		}
 	}
 	sort.SliceStable(sc.Steps, func(a, b int) bool { return sc.Steps[a].At < sc.Steps[b].At })
+	return sc
+}
+
+// genRestart: lifecycles over several runs of one election object next to a competitor — a first run stopped (either
+// call, every option) at a chosen phase of its first store operation, a pause shorter or longer than the TTL, a
+// restart, and a final StopWithContext with DeleteKey; the competitor starts before, between or after (C02, C09, C01).
+func genRestart(rng *rand.Rand, seed int64) *Scenario {
+	h := []time.Duration{200 * ms, 500 * ms}[rng.Intn(2)]
+	ttl := 3 * h
+	sc := &Scenario{Name: "restart", Seed: seed, StoreTTL: ttl, Lat: map[int]LatSpec{0: {Min: 1 * ms, Max: h / 8}},
+		WatchMin: 1 * ms, WatchMax: h / 4, Sample: h / 2, Plans: map[string]OpPlan{},
+		Responsive: true, NoOutside: true, NoPreempt: true, MaxLat: h / 4}
+	a := InstSpec{ID: 1, Group: "g", TTL: ttl, H: h}
+	b := InstSpec{ID: 2, Group: "g", TTL: ttl, H: h}
+	if rng.Intn(4) == 0 {
+		a.Promote = "block"
+	}
+	sc.Insts = []InstSpec{a, b}
+	// the first operation of A (the Create of its first run) has a known shape
+	pre := h/16 + time.Duration(rng.Int63n(int64(h/16)))/2*2 + 1
+	post := h/16 + time.Duration(rng.Int63n(int64(h/16)))/2*2
+	sc.Plans["1:0"] = OpPlan{Pre: pre, Post: post}
+	t0 := time.Duration(rng.Int63n(int64(h)))/2*2 + 1
+	sc.Steps = append(sc.Steps, Step{At: t0, Kind: "start", Inst: 1})
+	// first stop: around the Create
+	var d time.Duration
+	switch rng.Intn(5) {
+	case 0:
+		d = 0
+	case 1:
+		d = pre / 2
+	case 2:
+		d = pre + post/2
+	case 3:
+		d = pre + post + 1
+	default:
+		d = pre + post + time.Duration(rng.Int63n(int64(4*h)))
+	}
+	first := Step{At: t0 + d, Kind: "stop", Inst: 1}
+	if rng.Intn(2) == 0 {
+		first = Step{At: t0 + d, Kind: "stopctx", Inst: 1, Del: rng.Intn(2) == 0, Wait: rng.Intn(2) == 0,
+			Timeout: []time.Duration{0, h / 32, 2 * time.Second}[rng.Intn(3)]}
+	}
+	sc.Steps = append(sc.Steps, first)
+	// pause, restart
+	pause := []time.Duration{h / 4, h, ttl + h, ttl + 2*h}[rng.Intn(4)] + time.Duration(rng.Int63n(int64(h/2)))/2*2
+	t1 := first.At + pause
+	sc.Steps = append(sc.Steps, Step{At: t1, Kind: "start", Inst: 1})
+	// the competitor
+	tb := []time.Duration{0, first.At + h/8, first.At + ttl + h/2, t1 + h/2}[rng.Intn(4)] + time.Duration(rng.Int63n(int64(h/4)))/2*2 + 3
+	sc.Steps = append(sc.Steps, Step{At: tb, Kind: "start", Inst: 2})
+	// final stop of A with key deletion (sometimes the other way round: B stops)
+	t2 := t1 + h/2 + time.Duration(rng.Int63n(int64(6*h)))/2*2
+	who := 1
+	if rng.Intn(5) == 0 {
+		who = 2
+	}
+	sc.Steps = append(sc.Steps, Step{At: t2, Kind: "stopctx", Inst: who, Del: true, Wait: rng.Intn(2) == 0})
+	if rng.Intn(3) == 0 {
+		sc.Steps = append(sc.Steps, Step{At: t2 + h + time.Duration(rng.Int63n(int64(2*h))), Kind: "start", Inst: who})
+	}
+	sc.End = t2 + 4*ttl
+	sort.SliceStable(sc.Steps, func(i, j int) bool { return sc.Steps[i].At < sc.Steps[j].At })
 	return sc
 }
